@@ -163,6 +163,8 @@ pub(crate) static mut RUN_STYLE: [Option<anstyle::Style>; RUNS_MAX] = [None; RUN
 pub(crate) static mut RUN_PTR: [usize; RUNS_MAX] = [0; RUNS_MAX];
 pub(crate) static mut RUN_LEN: [usize; RUNS_MAX] = [0; RUNS_MAX];
 pub(crate) static mut EXTRACT_CALLS: usize = 0;
+/// most runs the stand-in yields (a harness may lower it)
+pub(crate) static mut RUN_LIMIT: usize = RUNS_MAX;
 
 pub(crate) fn wincon_next_recorder(
     bytes: &mut &[u8],
@@ -172,7 +174,7 @@ pub(crate) fn wincon_next_recorder(
     unsafe {
         EXTRACT_CALLS += 1;
         if EXTRACT_CALLS == 1 {
-            RUN_TOTAL = vk::any_usize_in(0, RUNS_MAX);
+            RUN_TOTAL = vk::any_usize_in(0, RUN_LIMIT);
         }
         if RUN_N >= RUN_TOTAL {
             // exhausted: the whole chunk has been consumed
@@ -183,11 +185,10 @@ pub(crate) fn wincon_next_recorder(
         }
         // arbitrary foreground and background (the only parts of a style the console stream looks at)
         let style = anstyle::Style::new().fg_color(any_opt_acolor().map(color_of)).bg_color(any_opt_acolor().map(color_of));
-        let mut text = String::with_capacity(2);
-        text.push((vk::any_u8_in(0x20, 0x7e)) as char);
-        if vk::any_bool() {
-            text.push((vk::any_u8_in(0x20, 0x7e)) as char);
-        }
+        // the console stream never looks at the text, only at where it is and how long: concrete
+        // one- or two-byte texts (String::push with symbolic characters drags Vec growth and UTF-8
+        // encoding into every path)
+        let text = if vk::any_bool() { String::from("ab") } else { String::from("a") };
         let i = RUN_N;
         RUN_STYLE[i] = Some(style);
         RUN_PTR[i] = text.as_ptr() as usize;
